@@ -140,9 +140,40 @@ Proof.
   - intros E1. apply orb_true_iff in B. destruct B as [B|B]; [apply Nat.eqb_eq in B; contradiction|apply fullinfo_b_sound, B].
 Qed.
 
+Lemma vof_b_sound P nd : vof_b P nd = true -> Vof P nd.
+Proof.
+  unfold vof_b, Vof. intros H. apply orb_true_iff in H. destruct H as [H|H]; [left; apply Nat.eqb_eq, H|right].
+  apply existsb_exists in H. destruct H as (x & Hx & E). apply node_eqb_eq in E. subst. exact Hx.
+Qed.
+Lemma children_first_b_sound nodes : forall P, children_first_b P nodes = true -> children_first P nodes.
+Proof.
+  induction nodes as [|[p [l r]] nodes IH]; intros P H; cbn in *; [exact I|].
+  apply andb_true_iff in H. destruct H as [H H3]. apply andb_true_iff in H. destruct H as [H1 H2].
+  split; [apply vof_b_sound, H1|]. split; [apply vof_b_sound, H2|apply IH, H3].
+Qed.
+Lemma rs_pre_b_sound ind s : rs_pre_b n ind s = true -> rs_pre n ind s.
+Proof.
+  unfold rs_pre_b, rs_pre. intros H. do 10 (apply andb_true_iff in H; destruct H as [H ?]).
+  rename H0 into Hfull, H1 into Hki, H2 into Hu, H3 into Htr, H4 into Hinc, H5 into Hpos, H6 into Ts, H7 into Tw, H8 into Tf, H9 into Hnd.
+  split; [apply memb_In, H|]. split; [apply nodupb_sound, Hnd|]. split; [exact Tf|]. split; [exact Tw|]. split; [exact Ts|].
+  split; [lia|]. split.
+  { rewrite forallb_forall in Hinc. intros j Hj. apply memb_In, Hinc, Hj. }
+  split.
+  { destruct (traverse n s) as [nodes|]; [|discriminate]. apply andb_true_iff in Htr. destruct Htr as [A B].
+    exists nodes. split; [reflexivity|]. split; [apply npermb_sound, A|apply children_first_b_sound, B]. }
+  split.
+  { rewrite forallb_forall in Hu. intros p l r E. specialize (Hu (p, (l, r)) (nget_In _ _ _ E)). apply node_eqb_eq, Hu. }
+  split.
+  { rewrite forallb_forall in Hki. intros q Hq. unfold nkeys in Hq. apply in_map_iff in Hq. destruct Hq as (c & <- & Hc).
+    apply nmem_true, Hki, Hc. }
+  rewrite forallb_forall in Hfull. intros nd i Hi Hl. specialize (Hfull (nd, i) (nget_In _ _ _ Hi)). cbn [fst snd] in Hfull.
+  apply orb_true_iff in Hfull. destruct Hfull as [E|E]; [apply Nat.eqb_eq in E; contradiction|].
+  apply nget_in_keys, nmem_true, E.
+Qed.
+
 Theorem prim_pre_b_sound p s : prim_pre_b n p s = true -> prim_pre n p s.
 Proof.
-  destruct p as [nd|nd|x y lg c z|g nd|f| | | | | |pr a b c|ind pj|ind| |k]; cbn [prim_pre_b prim_pre prim_pre1 prim_pre0]; intros H; try exact I; try exact H.
+  destruct p as [nd|nd|x y lg c z|g nd|f| | | | | |pr a b c|ind pj|ind| |k]; cbn [prim_pre_b prim_pre prim_preN prim_pre1 prim_pre0]; intros H; try exact I; try exact H.
   - apply good_node_b_sound, H.
   - apply orb_true_iff in H. destruct H as [H|H]; [left; apply Nat.eqb_eq, H|right].
     apply andb_true_iff in H. destruct H as [H1 H2]. split; [apply nget_in_keys, nmem_true, H1|apply nmem_true, H2].
@@ -151,7 +182,7 @@ Proof.
     apply andb_true_iff in H. destruct H as [H1 H2]. split; [apply good_node_b_sound, H1|apply flops_pre_b_sound, H2].
   - apply stats_pre_b_sound, H.
   - apply rm_pre_b_sound, H.
-  - discriminate.
+  - apply rs_pre_b_sound, H.
 Qed.
 Theorem pre_trace_b_sound tr : forall s, pre_trace_b n tr s = true -> pre_trace n (prim_pre n) tr s.
 Proof.
